@@ -370,3 +370,21 @@ Definition is_anti (c : cfg) (k : howbad) (x : lstmt) : bool :=
   | Instr op _ _ _ => match anti c op with Some k' => howbad_eqb k k' | None => false end
   | _ => false
   end.
+
+(* OldeExportedSub::param_registers: the n-th parameter of a type gets that type's n-th register *)
+Fixpoint param_registers (preg : ty -> Z -> option Z) (ps : list (option N * ty)) (ni nf : Z)
+  : option (list (option N * Z)) :=
+  match ps with
+  | [] => Some []
+  | (d, t) :: rest =>
+      let n := match t with TInt => ni | _ => nf end in
+      match preg t n with
+      | None => None       (* assert!(number < max_params_per_type) / unreachable!() *)
+      | Some r =>
+          match param_registers preg rest (match t with TInt => ni + 1 | _ => ni end)
+                                          (match t with TInt => nf | _ => nf + 1 end) with
+          | Some l => Some ((d, r) :: l)
+          | None => None
+          end
+      end
+  end.
